@@ -17,6 +17,7 @@ import ArtVerif.Model.Tree
 import ArtVerif.Model.Iter
 import ArtVerif.Model.Api
 import ArtVerif.Model.Spec
+import ArtVerif.Model.RTree
 open ArtVerif
 
 /-! ## key kinds -/
@@ -213,11 +214,42 @@ partial def absRT (path : String) (st : DumpStats) : RT → Except String (T Nat
         ch := (b, t) :: ch
     pure (.node kind plen (pfx.take (min plen 10)) ch.reverse, st)
 
+/-- the raw-node tree of the model in the format of the real dump (`verifDumpRef`): class, childrenLen, prefixLen,
+    all ten prefix bytes, the raw lanes / index bytes, the occupancy of every slot, the live children by slot -/
+partial def renderModelRT : ArtVerif.RT Nat → String
+  | .leaf k tk v => s!"L {hexOfBytes k} {hexOfBytes tk} {v}"
+  | .node r =>
+    let (cls, len, rawB, slots) : Nat × Nat × Bytes × List (Option (ArtVerif.RT Nat)) :=
+      match r with
+      | .n4 _ len keys slots => (4, len, Raw.lanes4 keys, slots)
+      | .n16 _ len keys slots => (16, len, keys, slots)
+      | .n48 _ len idx slots => (48, len, idx, slots)
+      | .n256 _ len slots => (256, len, [], slots)
+    let occ := String.ofList (slots.map fun o => if o.isSome then '1' else '0')
+    let live : List (Nat × ArtVerif.RT Nat) :=
+      if cls == 4 || cls == 16 then
+        (List.range (min len slots.length)).filterMap fun i => match (slots[i]?).join with | some c => some (i, c) | none => none
+      else
+        (List.range slots.length).filterMap fun i => match (slots[i]?).join with | some c => some (i, c) | none => none
+    let kids := live.map fun (i, c) => s!" {i} {renderModelRT c}"
+    s!"N {cls} {len % 256} {r.hdr.plen} {hexOfBytes r.hdr.pfx} {hexOfBytes rawB} {occ} {live.length}{String.join kids}"
+
+/-- the first token at which two dumps differ, with a little context -/
+def firstTokenDiff (a b : String) : String :=
+  let ta := a.splitOn " "
+  let tb := b.splitOn " "
+  let rec go (i : Nat) : List String → List String → String
+    | x :: xs, y :: ys => if x == y then go (i + 1) xs ys else s!"token {i}: impl={x} model={y}"
+    | [], [] => "equal"
+    | xs, ys => s!"token {i}: impl has {xs.length} more tokens, model {ys.length}"
+  go 0 ta tb
+
 /-! ## per-tree state -/
 
 structure TState where
   kind : KeyKind
   model : Tree Nat := {}
+  rmodel : RTree Nat := {}   -- the tree of raw node records (Model/RTree.lean), run in lockstep
   spec : Spec := []
   dead : Bool := false     -- abandoned after an implementation panic
 
@@ -233,6 +265,7 @@ structure DState where
   ops : Nat := 0
   diffs : Nat := 0
   dumps : Nat := 0
+  rawDumps : Nat := 0
   maxSize : Nat := 0
   stats : DumpStats := {}
   bareOps : Nat := 0
@@ -389,7 +422,7 @@ def step (s : DState) (line : String) : DState × List String :=
             let (s, o) := diff s "SPEC" s!"Insert panicked"
             (setTree s tid { ts with dead := true }, o)
           else
-            let ts := { ts with model := ts.model.insert kr.tk kr.k v, spec := ts.spec.insert kr.sk v }
+            let ts := { ts with model := ts.model.insert kr.tk kr.k v, rmodel := ts.rmodel.insert kr.tk kr.k v, spec := ts.spec.insert kr.sk v }
             (setTree s tid ts, [])
         | _, _ => diff s "PROTO" "bad ins"
     | ["del", t, key] =>
@@ -398,7 +431,7 @@ def step (s : DState) (line : String) : DState × List String :=
         | some kr =>
           let (m', mr) := ts.model.delete kr.tk kr.k
           let (sp', sr) := ts.spec.erase kr.sk
-          let ts' := { ts with model := m', spec := sp' }
+          let ts' := { ts with model := m', rmodel := (ts.rmodel.delete kr.tk kr.k).1, spec := sp' }
           let s := setTree s tid ts'
           let r := fun (b : Bool) => if b then "1" else "0"
           if impl == "PANIC" then
@@ -441,7 +474,16 @@ def step (s : DState) (line : String) : DState × List String :=
               | some r =>
                 let a := renderT t
                 let b := renderT r
-                if a != b then diff s "MODEL" s!"impl={a} model={b}" else (s, [])
+                if a != b then diff s "MODEL" s!"impl={a} model={b}"
+                else
+                  -- the tree of raw node records, field by field (stale lanes, stale prefix bytes, slot occupancy, slot
+                  -- placement): the model the C11RawTree / C0xRaw theorems are about against the real structure
+                  match ts.rmodel.root with
+                  | none => diff s "MODEL" "raw-node model is empty, the real tree is not"
+                  | some rr =>
+                    let rm := renderModelRT rr
+                    if rm != impl then diff s "MODEL" s!"raw-node model differs from the real structure at {firstTokenDiff impl rm}"
+                    else ({ s with rawDumps := s.rawDumps + 1 }, [])
           | _ => diff s "INV" "the dump of the real tree cannot be read back as a tree"
     | [mm, t] =>
       if mm == "min" || mm == "max" then
@@ -620,5 +662,5 @@ def main : IO UInt32 := do
   let stdout ← IO.getStdout
   let s ← loop stdin stdout {}
   let st := s.stats
-  stdout.putStrLn s!"SUMMARY lines={s.lineno} ops={s.ops} diffs={s.diffs} dumps={s.dumps} maxsize={s.maxSize} n4={st.nodes4} n16={st.nodes16} n48={st.nodes48} n256={st.nodes256} longpaths={st.longPaths} full256={st.full256} leaves={st.leaves} bareops={s.bareOps} fnops={s.fnOps}"
+  stdout.putStrLn s!"SUMMARY lines={s.lineno} ops={s.ops} diffs={s.diffs} dumps={s.dumps} rawdumps={s.rawDumps} maxsize={s.maxSize} n4={st.nodes4} n16={st.nodes16} n48={st.nodes48} n256={st.nodes256} longpaths={st.longPaths} full256={st.full256} leaves={st.leaves} bareops={s.bareOps} fnops={s.fnOps}"
   return (if s.diffs == 0 then 0 else 1)
